@@ -638,19 +638,32 @@ func (a *Authority) init() error {
 			// linked or hosted deployments. Not for linked, because that case is explicitly checked
 			// for above. Not for hosted, because there'll be at least an existing OIDC provisioner.
 			var firstJWKProvisioner *linkedca.Provisioner
+			// The migration is all or nothing: if one of its steps fails, the
+			// provisioners stored so far are deleted again, so that the next
+			// start finds no provisioners and runs the whole migration. Left
+			// half done it would never run again, and the CA would come up
+			// without the first super admin.
+			var created []string
+			undo := func(err error) error {
+				for _, id := range created {
+					_ = a.adminDB.DeleteProvisioner(ctx, id)
+				}
+				return err
+			}
 			if len(a.config.AuthorityConfig.Provisioners) > 0 {
 				// Existing provisioners detected; try migrating them to DB storage.
 				a.initLogf("Starting migration of provisioners")
 				for _, p := range a.config.AuthorityConfig.Provisioners {
 					lp, err := ProvisionerToLinkedca(p)
 					if err != nil {
-						return admin.WrapErrorISE(err, "error transforming provisioner %q while migrating", p.GetName())
+						return undo(admin.WrapErrorISE(err, "error transforming provisioner %q while migrating", p.GetName()))
 					}
 
 					// Store the provisioner to be migrated
 					if err := a.adminDB.CreateProvisioner(ctx, lp); err != nil {
-						return admin.WrapErrorISE(err, "error creating provisioner %q while migrating", p.GetName())
+						return undo(admin.WrapErrorISE(err, "error creating provisioner %q while migrating", p.GetName()))
 					}
+					created = append(created, lp.Id)
 
 					// Mark the first JWK provisioner, so that it can be used for administration purposes
 					if firstJWKProvisioner == nil && lp.Type == linkedca.Provisioner_JWK {
@@ -677,8 +690,9 @@ func (a *Authority) init() error {
 			if firstJWKProvisioner == nil {
 				firstJWKProvisioner, err = CreateFirstProvisioner(ctx, a.adminDB, string(a.password))
 				if err != nil {
-					return admin.WrapErrorISE(err, "error creating first provisioner")
+					return undo(admin.WrapErrorISE(err, "error creating first provisioner"))
 				}
+				created = append(created, firstJWKProvisioner.Id)
 				a.initLogf("Created JWK provisioner %q with admin permissions", firstJWKProvisioner.GetName())
 			}
 
@@ -697,7 +711,7 @@ func (a *Authority) init() error {
 				Subject:       superAdminSubject,
 				Type:          linkedca.Admin_SUPER_ADMIN,
 			}); err != nil {
-				return admin.WrapErrorISE(err, "error creating first admin")
+				return undo(admin.WrapErrorISE(err, "error creating first admin"))
 			}
 
 			a.initLogf("Created super admin %q for JWK provisioner %q", superAdminSubject, firstJWKProvisioner.GetName())
